@@ -596,6 +596,11 @@ func c20TieAuto(r *Result, rng *rand.Rand, tier string) {
 		for _, x := range checks {
 			isChk[x] = true
 		}
+		// the unique-constraint name MigrateColumnUnique derives for a column (the namer snake-cases a mixed-case column name)
+		uniCol := map[string]string{}
+		for _, dbn := range sch.DBNames {
+			uniCol[db.NamingStrategy.UniqueName("auto_items", dbn)] = dbn
+		}
 		var real [][]string
 		for _, c := range st.calls {
 			switch c[0] {
@@ -605,9 +610,9 @@ func c20TieAuto(r *Result, rng *rand.Rand, tier string) {
 				}
 				real = append(real, []string{"addColumn", c[1]})
 			case "createConstraint", "dropConstraint":
-				if !isFk[c[1]] && !isChk[c[1]] && strings.HasPrefix(c[1], "uni_auto_items_") {
+				if col, ok := uniCol[c[1]]; ok && !isFk[c[1]] && !isChk[c[1]] {
 					k := map[string]string{"createConstraint": "createUnique", "dropConstraint": "dropUnique"}[c[0]]
-					real = append(real, []string{k, strings.TrimPrefix(c[1], "uni_auto_items_")})
+					real = append(real, []string{k, col})
 				} else {
 					real = append(real, []string{c[0], c[1]})
 				}
